@@ -672,3 +672,50 @@ Proof.
       unfold sph_word0. unfold sph_valid in V. lia.
     + rewrite Ld. unfold sph_valid in V. lia.
 Qed.
+
+(* ================= Part F: soundness — whatever is returned is a declared-length packet ================= *)
+
+Lemma firstn_wf_packet raws s : wf_bytes s -> (7 <= length s)%nat ->
+  hd_registered raws s = true -> (hd_plen s <= length s)%nat ->
+  wf_packet raws (firstn (hd_plen s) s).
+Proof.
+  intros W H7 R Hl.
+  do 7 (destruct s as [|? s]; [cbn [length] in H7; lia|]).
+  unfold hd_registered, hd_plen in *. cbn [nth] in *.
+  pose proof (hdr_bytes _ _ _ _ _ _ _ W) as [B4 B5].
+  assert (E : plen z3 z4 = (6 + Z.to_nat (z3 * 256 + z4 + 1))%nat) by (unfold plen; lia).
+  rewrite E in *. cbn [Nat.add firstn].
+  split.
+  - apply (wf_bytes_firstn (6 + Z.to_nat (z3 * 256 + z4 + 1)) _ W).
+  - exists z, z0, z1, z2, z3, z4, (firstn (Z.to_nat (z3 * 256 + z4 + 1)) (z5 :: s)).
+    split; [reflexivity|]. split; [assumption|].
+    unfold len. rewrite firstn_length. cbn [length] in *. lia.
+Qed.
+
+Lemma spec_stream_sound raws : forall n s, (length s <= n)%nat -> wf_bytes s ->
+  Forall (wf_packet raws) (fst (spec_stream raws s)).
+Proof.
+  induction n as [|n IH]; intros s Hn W.
+  - rewrite spec_stream_short by lia. constructor.
+  - rewrite spec_stream_eq by assumption.
+    destruct (Nat.leb_spec (length s) 6) as [Hs|Hs]; [constructor|].
+    destruct (hd_registered raws s) eqn:R.
+    + destruct (Nat.leb_spec (hd_plen s) (length s)) as [Hl|Hl]; [|constructor].
+      pose proof (hd_plen_ge7 s W ltac:(lia)) as Hp.
+      specialize (IH (skipn (hd_plen s) s)).
+      destruct (spec_stream raws (skipn (hd_plen s) s)) as [p rm]. cbn [fst] in *.
+      constructor.
+      * apply firstn_wf_packet; try assumption; lia.
+      * apply IH; [rewrite skipn_length; lia|apply wf_bytes_skipn; assumption].
+    + apply IH; [rewrite length_tl; lia|apply wf_bytes_tl; assumption].
+Qed.
+
+(* every returned packet is a well-formed octet string of exactly its declared length whose
+   identification is registered (nothing is read beyond the declared packet: C09 for the parser) *)
+Theorem parse_buf_sound raws buf ps q : wf_bytes buf ->
+  parse_buf raws buf = Ok (ps, q) -> Forall (wf_packet raws) ps.
+Proof.
+  intros W. rewrite parse_buf_spec by assumption.
+  pose proof (spec_stream_sound raws (length buf) buf (le_n _) W) as S.
+  destruct (spec_stream raws buf) as [p r]. cbn [fst] in S. intros E. inversion E; subst. assumption.
+Qed.
